@@ -220,6 +220,65 @@ def _rust_round_last(ctx) -> None:
     ctx.count("rust_round_calls", n)
 
 
+def _rust_order_guards(ctx) -> None:
+    """The designator-order / weeks-exclusive errors of the compiled parser must be decided from the *position* of
+    the designators (a rank or flag local), never from the values already parsed: a value test lets zero-valued or
+    repeated components through (PT0M1H, PT1H1H)."""
+    try:
+        mir = mirfront.load()
+    except mirfront.MirUnavailable:
+        return
+    f = mir.fn("parse_duration")
+    names = f.names()
+    preds: dict[int, list[int]] = {}
+    for b in f.blocks.values():
+        for t in b.succs:
+            preds.setdefault(t, []).append(b.idx)
+    n = 0
+    for b in f.blocks.values():
+        msg = None
+        for s in b.stmts:
+            mm = re.search(r'const "([^"]*(?:out of order|cannot have)[^"]*)"', s.raw)
+            if mm:
+                msg = mm.group(1)
+        if msg is None:
+            continue
+        # walk back through the chain of condition blocks that lead here
+        seen, work, conds = set(), list(preds.get(b.idx, [])), []
+        while work:
+            p = work.pop()
+            if p in seen:
+                continue
+            seen.add(p)
+            pb = f.blocks[p]
+            if pb.switch:
+                d = [x for x in pb.stmts if x.dest == pb.switch[0]]
+                if d:
+                    ops = []
+                    for a in d[0].args:
+                        src = a
+                        for _ in range(4):
+                            dd = [x for x in pb.stmts if x.dest == src and x.op == "use"]
+                            if not dd:
+                                break
+                            src = dd[0].args[0]
+                        ops.append(src)
+                    conds.append((d[0].op, ops, p))
+                    # `a || b` chains: a predecessor that only falls through to this test
+                    for q in preds.get(p, []):
+                        qb = f.blocks[q]
+                        if qb.switch and len(qb.stmts) <= 4 and b.idx in [t for t in qb.succs]:
+                            work.append(q)
+        n += 1
+        value_based = [c for c in conds if any(re.match(r"^\(_\d+\.\d+: u32\)$", o) for o in c[1])]
+        positional = [c for c in conds if any(names.get(o) and f.types.get(o) in ("u8", "bool", "u32", "usize") for o in c[1])]
+        ctx.ob("ORDER-GUARD", f"rs:parse_duration/bb{b.idx}:{msg[:40]}", not value_based and bool(positional),
+               f"error `{msg}` is guarded by {[(c[0], [names.get(o, o) for o in c[1]]) for c in conds]}; the guard must test the position of "
+               f"the last designator, not whether earlier components are non-zero" if value_based or not positional else
+               f"guarded by {[(c[0], [names.get(o, o) for o in c[1]]) for c in conds]}", "rust/src/parsing.rs")
+    ctx.count("rust_order_errors", n)
+
+
 def _interval_assembly(ctx) -> None:
     m = pmod("parser")
     fn = m.func("_parse")
@@ -274,6 +333,7 @@ def run(ctx) -> None:
     _fraction_scale(ctx)
     _rust_arith(ctx)
     _rust_round_last(ctx)
+    _rust_order_guards(ctx)
     _interval_assembly(ctx)
     ctx.expect_min("FRACTION-SCALE", 6)
     ctx.expect_min("INTERVAL.assembly", 5)
